@@ -184,3 +184,485 @@ contract(
         "for i in range(vote_array.shape[0]) for k in range(_i))",
     ]},
 )
+
+
+def _enum_agg(size):
+    """every assignment of <= 4 leaves to <= 3 children, every vote row over {0,1,2}; 1 or 2 query rows"""
+    import itertools
+    import numpy as np
+    names = ['b', 'a', 'c']
+    for n_ref in range(0, 5):
+        for types in itertools.product(names, repeat=n_ref):
+            for row in itertools.product((0, 1, 2), repeat=n_ref):
+                rows = [list(row)] if sum(row) % 2 == 0 else [list(row), list(reversed(row))]
+                v = np.array(rows, dtype=int).reshape(len(rows), n_ref)
+                c = (v * 0.25).astype(float)
+                yield dict(vote_array=v, correlation_array=c, reference_types=list(types))
+
+
+contract(
+    M + 'aggregate_votes#rowsum',
+    properties=['C02', 'C03'], mode='bounded',
+    native=dict(enumerate=_enum_agg, gen=_gen_agg,
+                bound='exhaustive: <= 4 leaves, <= 3 children, votes per leaf in {0,1,2}, 1-2 query rows'),
+    params=AGG_PARAMS,
+    returns='Tuple[Arr2[Int],Arr2[Real],List[Name]]',
+    requires=AGG_REQ,
+    ensures=[
+        # aggregation preserves the row sums (needs a double-sum exchange: not attempted by SMT)
+        "all(rowsum(result[0], i) == rowsum(vote_array, i) for i in range(vote_array.shape[0]))",
+        "all(close(rowsum(result[1], i), rowsum(correlation_array, i)) for i in range(vote_array.shape[0]))",
+        "all(result[0][i, k] <= rowsum(vote_array, i) for i in range(vote_array.shape[0]) "
+        "for k in range(len(result[2])))",
+    ],
+    note="row-sum preservation of aggregate_votes: bounded stand-in (small-scope exhaustive)",
+)
+
+
+# ---------------------------------------------------------------------------------------------
+# choose_node  (C02.c, C03)
+# ---------------------------------------------------------------------------------------------
+RUP = 'Tuple[Name,Bool,Real,Real]'
+CHOOSE_PARAMS = dict(query_gene_data='Arr2[Real]', reference_gene_data='Arr2[Real]', reference_types='List[Name]',
+                     bootstrap_factor='Real', bootstrap_iteration='Int', rng='Rng', n_assignments='Int',
+                     gpu_index='Int', timers='Opt[Opaque]')
+CHOOSE_RET = f'Tuple[Arr[Name],Arr[Real],Arr[Real],List[List[{RUP}]]]'
+CHOOSE_REQ = TALLY_REQ + [
+    "len(reference_types) == reference_gene_data.shape[0]",
+    "query_gene_data.shape[0] >= 1",        # run_type_assignment skips parents without cells
+    "n_assignments >= 1",                   # = number of runners-up requested + 1
+]
+
+
+def _gen_choose(rng, size):
+    import numpy as np
+    g = _gen_tally(rng, size)
+    n_ref = g['reference_gene_data'].shape[0]
+    pool = ['b', 'a', 'c', 'd'][:rng.randint(1, 4)]
+    if rng.random() < 0.4:
+        types = [f"t{k}" for k in range(n_ref)]
+        rng.shuffle(types)
+    else:
+        types = [rng.choice(pool) for _ in range(n_ref)]
+    g.update(reference_types=types, n_assignments=rng.choice([1, 1, 2, 3, 10]))
+    return g
+
+
+contract(
+    M + 'choose_node',
+    properties=['C02', 'C03'],
+    native=dict(gen=_gen_choose),
+    params=CHOOSE_PARAMS, returns=CHOOSE_RET,
+    requires=CHOOSE_REQ,
+    ensures=[
+        # one answer per query cell
+        "len(result[0]) == query_gene_data.shape[0] and len(result[1]) == query_gene_data.shape[0] "
+        "and len(result[2]) == query_gene_data.shape[0] and len(result[3]) == query_gene_data.shape[0]",
+        "all(result[0][i] in reference_types for i in range(len(result[0])))",
+        "all(result[1][i] >= 0 for i in range(len(result[1])))",
+        # runners-up: equal length, at most n_assignments - 1 entries
+        "all(len(result[3][i]) == len(result[3][0]) and len(result[3][i]) <= n_assignments - 1 "
+        "for i in range(len(result[3])))",
+        # ... the flag says whether any vote was received (zero-vote entries are dropped by the caller)
+        "all(result[3][i][c][1] == (result[3][i][c][3] > 0) "
+        "for i in range(len(result[3])) for c in range(len(result[3][i])))",
+        # ... shares in non-increasing order, none larger than the winner's
+        "all(result[3][i][c][3] <= result[1][i] for i in range(len(result[3])) for c in range(len(result[3][i])))",
+        "all(result[3][i][c][3] >= result[3][i][d][3] "
+        "for i in range(len(result[3])) for c in range(len(result[3][i])) for d in range(len(result[3][i])) if c < d)",
+        # ... names are candidate types, pairwise distinct and distinct from the winner
+        "all(result[3][i][c][0] in reference_types for i in range(len(result[3])) for c in range(len(result[3][i])))",
+        "all(result[3][i][c][0] != result[0][i] for i in range(len(result[3])) for c in range(len(result[3][i])))",
+        "all(result[3][i][c][0] != result[3][i][d][0] "
+        "for i in range(len(result[3])) for c in range(len(result[3][i])) for d in range(len(result[3][i])) if c < d)",
+    ],
+    inline_asserts={
+        # V, C, reference_types: the (aggregated) vote counts, correlation sums and candidate
+        # types the decision is taken on
+        "n_assignments = min(n_assignments, votes.shape[1])": [
+            "ghost V = votes",
+            "ghost C = corr_sum",
+            "dupfree(reference_types)",
+            "V.shape[0] == query_gene_data.shape[0] and V.shape[1] == len(reference_types)",
+            "C.shape[0] == V.shape[0] and C.shape[1] == V.shape[1]",
+            "all(V[i, j] >= 0 for i in range(V.shape[0]) for j in range(V.shape[1]))",
+            "1 <= n_assignments and n_assignments <= V.shape[1]",
+        ],
+        "runners_up = [": [
+            "sorted_by_votes.shape[0] == V.shape[0] and sorted_by_votes.shape[1] == n_assignments",
+            "all(0 <= sorted_by_votes[i, c] and sorted_by_votes[i, c] < V.shape[1] "
+            "for i in range(V.shape[0]) for c in range(n_assignments))",
+            # the listed columns are pairwise distinct, in non-increasing vote order, and no
+            # column that is not listed has more votes than a listed one
+            "all(sorted_by_votes[i, c] != sorted_by_votes[i, d] "
+            "for i in range(V.shape[0]) for c in range(n_assignments) for d in range(n_assignments) if c < d)",
+            "all(V[i, sorted_by_votes[i, c]] >= V[i, sorted_by_votes[i, d]] "
+            "for i in range(V.shape[0]) for c in range(n_assignments) for d in range(n_assignments) if c < d)",
+            "all(implies(all(sorted_by_votes[i, c] != j for c in range(n_assignments)), "
+            "V[i, j] <= V[i, sorted_by_votes[i, n_assignments - 1]]) "
+            "for i in range(V.shape[0]) for j in range(V.shape[1]))",
+            # C02.c: the winner is an arg-max of the votes, its probability its share of the
+            # iterations, its average correlation its correlation sum over its votes
+            "all(V[i, sorted_by_votes[i, 0]] >= V[i, j] for i in range(V.shape[0]) for j in range(V.shape[1]))",
+            "all(result[i] == reference_types[sorted_by_votes[i, 0]] for i in range(V.shape[0]))",
+            "all(vote_fractions[i, c] == V[i, sorted_by_votes[i, c]] / bootstrap_iteration "
+            "for i in range(V.shape[0]) for c in range(n_assignments))",
+            "all(implies(V[i, sorted_by_votes[i, c]] > 0, "
+            "avg_corr[i, c] == C[i, sorted_by_votes[i, c]] / V[i, sorted_by_votes[i, c]]) "
+            "for i in range(V.shape[0]) for c in range(n_assignments))",
+            # the runners-up are columns 1 .. n_assignments-1 of that order
+            "len(runners_up) == V.shape[0]",
+            "all(len(runners_up[i]) == n_assignments - 1 for i in range(V.shape[0]))",
+            "all(runners_up[i][c][0] == reference_types[sorted_by_votes[i, c + 1]] "
+            "and runners_up[i][c][1] == (V[i, sorted_by_votes[i, c + 1]] > 0) "
+            "and runners_up[i][c][2] == avg_corr[i, c + 1] "
+            "and runners_up[i][c][3] == V[i, sorted_by_votes[i, c + 1]] / bootstrap_iteration "
+            "for i in range(V.shape[0]) for c in range(n_assignments - 1))",
+        ],
+    },
+)
+
+
+# ---- bounded views of choose_node: the clauses of C03 that need sums over the vote rows -------
+def _choose_with_votes(votes, corr_sum, reference_types, bootstrap_iteration, n_assignments):
+    """the real choose_node with tally_votes replaced by a stub that returns the given votes"""
+    import numpy as np
+    import cell_type_mapper.type_assignment.election as E
+    real = E.tally_votes
+    E.tally_votes = lambda **kw: (np.array(votes), np.array(corr_sum, dtype=float))
+    try:
+        n_q, n_ref = np.array(votes).shape
+        return E.choose_node(query_gene_data=np.zeros((n_q, 2)), reference_gene_data=np.zeros((n_ref, 2)),
+                             reference_types=list(reference_types), bootstrap_factor=1.0,
+                             bootstrap_iteration=bootstrap_iteration, rng=np.random.default_rng(0),
+                             n_assignments=n_assignments)
+    finally:
+        E.tally_votes = real
+
+
+def _compositions(total, parts):
+    if parts == 0:
+        if total == 0:
+            yield ()
+        return
+    for first in range(total + 1):
+        for rest in _compositions(total - first, parts - 1):
+            yield (first,) + rest
+
+
+def _enum_choose(size):
+    """every vote row (iterations <= 3 spread over <= 4 leaves), every assignment of the leaves to
+    <= 3 children, every n_assignments in 1..4; two query rows (the row and its reverse)"""
+    import itertools
+    import numpy as np
+    for n_ref in range(1, 5):
+        for types in itertools.product(['b', 'a', 'c'], repeat=n_ref):
+            for it in (1, 2, 3):
+                for row in _compositions(it, n_ref):
+                    v = np.array([row, row[::-1]], dtype=int)
+                    c = v * np.array([[0.5], [-0.25]])
+                    for n_as in (1, 2, 3, 4):
+                        yield dict(votes=v, corr_sum=c, reference_types=list(types),
+                                   bootstrap_iteration=it, n_assignments=n_as)
+
+
+SHARES = [
+    # the probability is a whole number v of votes out of the iterations, 1 <= v <= iterations
+    "all(abs(result[1][i] * bootstrap_iteration - round(result[1][i] * bootstrap_iteration)) < 1e-9 "
+    "and 1 <= round(result[1][i] * bootstrap_iteration) <= bootstrap_iteration for i in range(len(result[1])))",
+    # listed (= flagged) runners-up have a strictly positive share; winner + runners-up <= 1,
+    # and = 1 when every sibling could be listed
+    "all(sum(r[3] for r in result[3][i] if r[1]) + result[1][i] <= 1 + 1e-9 for i in range(len(result[1])))",
+    "all(implies(n_assignments >= len(set(reference_types)), "
+    "abs(sum(r[3] for r in result[3][i] if r[1]) + result[1][i] - 1) < 1e-9) for i in range(len(result[1])))",
+    "all(len(result[3][i]) == min(n_assignments, len(set(reference_types))) - 1 for i in range(len(result[3])))",
+    "all(implies(r[1], r[3] > 0) and implies(not r[1], r[3] == 0) for i in range(len(result[3])) for r in result[3][i])",
+    # once a runner-up has no vote, none of the later ones has
+    "all(implies(not result[3][i][c][1], not result[3][i][c + 1][1]) "
+    "for i in range(len(result[3])) for c in range(len(result[3][i]) - 1))",
+]
+
+contract(
+    M + 'choose_node#shares',
+    properties=['C03', 'C02'], mode='bounded',
+    native=dict(call=_choose_with_votes, enumerate=_enum_choose, max_enumerated=400000,
+                bound='exhaustive: iterations <= 3, <= 4 leaves, <= 3 children, n_assignments 1..4 '
+                      '(tally_votes stubbed by the enumerated vote matrix)'),
+    params=dict(votes='Arr2[Int]', corr_sum='Arr2[Real]', reference_types='List[Name]',
+                bootstrap_iteration='Int', n_assignments='Int'),
+    returns=CHOOSE_RET,
+    requires=["all(sum(votes[i, :]) == bootstrap_iteration for i in range(votes.shape[0]))"],
+    ensures=SHARES + [
+        # the winner is a child with the most aggregated votes, with exactly that share and
+        # the mean correlation of its votes
+        "all(result[1][i] * bootstrap_iteration + 1e-9 >= max("
+        "sum(votes[i, j] for j in range(votes.shape[1]) if reference_types[j] == t) for t in set(reference_types)) "
+        "for i in range(votes.shape[0]))",
+        "all(abs(result[1][i] * bootstrap_iteration - "
+        "sum(votes[i, j] for j in range(votes.shape[1]) if reference_types[j] == result[0][i])) < 1e-9 "
+        "for i in range(votes.shape[0]))",
+        "all(abs(result[2][i] * result[1][i] * bootstrap_iteration - "
+        "sum(corr_sum[i, j] for j in range(votes.shape[1]) if reference_types[j] == result[0][i])) < 1e-9 "
+        "for i in range(votes.shape[0]))",
+        # every vote-getting child that is not the winner is listed when there is room for it
+        "all(implies(n_assignments >= len(set(reference_types)), "
+        "set(r[0] for r in result[3][i] if r[1]) | {result[0][i]} == "
+        "set(reference_types[j] for j in range(votes.shape[1]) if votes[i, j] > 0)) "
+        "for i in range(votes.shape[0]))",
+    ],
+    note="C03 share arithmetic of choose_node (sums over vote rows): bounded stand-in",
+)
+
+contract(
+    M + 'choose_node#shares_random',
+    properties=['C03'], mode='bounded',
+    native=dict(gen=_gen_choose, bound='seeded random: <= 4 cells, <= 4 leaves, <= 6 genes, real tally_votes'),
+    params=CHOOSE_PARAMS, returns=CHOOSE_RET,
+    requires=CHOOSE_REQ,
+    ensures=SHARES + ["all(-1 - 1e-9 <= result[2][i] <= 1 + 1e-9 for i in range(len(result[2])))"],
+)
+
+
+# ---------------------------------------------------------------------------------------------
+# run_type_assignment  (C01.d, C03, C06.c) - bounded stand-in (DESIGN 4, C01.d fallback B)
+#
+# The real run_type_assignment is executed on every taxonomy with <= 3 levels and <= 4 leaves
+# (single-child chains and a single node at the top level included - D-1) x every assignment
+# of <= 3 cells to preferred leaves.  `_run_type_assignment` (marker lookup + election, verified
+# separately above) is replaced by a stub whose answer for a row is a function of that row's
+# OWN data: the child on the way to the leaf the row prefers, with a per-cell probability,
+# correlation and runner-up list.  A cell routed through another cell's row, a child written
+# under the wrong parent, a missing level or a wrong fill / product shows as a clause failure.
+# ---------------------------------------------------------------------------------------------
+def _trees(max_levels=3, max_leaves=4):
+    """all ordered groupings: a taxonomy is a chain of partitions of consecutive nodes"""
+    def groupings(n):          # compositions of n = sizes of consecutive groups
+        if n == 0:
+            yield ()
+            return
+        for first in range(1, n + 1):
+            for rest in groupings(n - first):
+                yield (first,) + rest
+
+    def build(n_leaves, n_levels):
+        # from the leaf level upwards: each level groups the nodes of the level below
+        def rec(level_nodes, levels_left):
+            if levels_left == 0:
+                yield []
+                return
+            for comp in groupings(len(level_nodes)):
+                parents, k = {}, 0
+                for gi, size in enumerate(comp):
+                    parents[f"L{levels_left}n{gi}"] = level_nodes[k:k + size]
+                    k += size
+                for above in rec(list(parents), levels_left - 1):
+                    yield above + [parents]
+        leaves = [f"leaf{k}" for k in range(n_leaves)]
+        for upper in rec(leaves, n_levels - 1):
+            hierarchy = [f"lvl{k}" for k in range(n_levels)]
+            tree = {'hierarchy': hierarchy}
+            for name, level in zip(hierarchy[:-1], upper):
+                tree[name] = {p: list(ch) for p, ch in level.items()}
+            tree[hierarchy[-1]] = {leaf: [k] for k, leaf in enumerate(leaves)}
+            yield tree
+    for n_levels in range(1, max_levels + 1):
+        for n_leaves in range(1, max_leaves + 1):
+            yield from build(n_leaves, n_levels)
+
+
+def _leaf_ancestors(tree, leaf):
+    """level -> ancestor of `leaf` at that level"""
+    H = tree['hierarchy']
+    out = {H[-1]: leaf}
+    for up, dn in zip(H[-2::-1], H[:0:-1]):
+        out[up] = [p for p, ch in tree[up].items() if out[dn] in ch][0]
+    return out
+
+
+def _cell_numbers(pref, n_leaves):
+    return (1.0 + pref) / (n_leaves + 1.0), 0.1 * (pref + 1)      # probability, correlation
+
+
+def _run_with_stub(tree, prefs, n_assignments):
+    import warnings
+    import numpy as np
+    import cell_type_mapper.type_assignment.election as E
+    from cell_type_mapper.taxonomy.taxonomy_tree import TaxonomyTree
+    from cell_type_mapper.cell_by_gene.cell_by_gene import CellByGeneMatrix
+    H = tree['hierarchy']
+    leaves = sorted(tree[H[-1]])
+    with warnings.catch_warnings():
+        warnings.simplefilter('ignore')
+        tt = TaxonomyTree(data=tree)
+
+    def stub(full_query_gene_data, leaf_node_matrix, marker_gene_cache_path, taxonomy_tree, parent_node,
+             bootstrap_factor, bootstrap_iteration, rng, gpu_index=0, timers=None, n_assignments=10):
+        children = sorted(tt.children(None, None) if parent_node is None else tt.children(*parent_node))
+        child_level = H[0] if parent_node is None else H[H.index(parent_node[0]) + 1]
+        a, p, c, r = [], [], [], []
+        for row in full_query_gene_data.data:
+            pref = int(row[0])
+            prob, corr = _cell_numbers(pref, len(leaves))
+            corr += 0.01 * H.index(child_level)               # level dependent, see _expected_corr
+            win = _leaf_ancestors(tree, leaves[pref])[child_level]
+            assert win in children, "stub called for a parent that is not an ancestor of the cell's leaf"
+            others = [ch for ch in children if ch != win]
+            ru = [(others[0], True, corr / 2, 1.0 - prob)] + [(o, False, 0.0, 0.0) for o in others[1:]]
+            a.append(win), p.append(prob), c.append(corr), r.append(ru[:max(0, min(n_assignments, len(children)) - 1)])
+        return np.array(a), np.array(p), np.array(c), r
+    real = E._run_type_assignment
+    E._run_type_assignment = stub
+    try:
+        data = np.array([[float(pf), 100.0 + k] for k, pf in enumerate(prefs)]).reshape(len(prefs), 2)
+        q = CellByGeneMatrix(data=data, gene_identifiers=['g0', 'g1'], normalization='log2CPM')
+        lookup = {lv: 1.0 for lv in H}
+        lookup['None'] = 1.0
+        return E.run_type_assignment(full_query_gene_data=q, leaf_node_matrix=None, marker_gene_cache_path=None,
+                                     taxonomy_tree=tt, bootstrap_factor_lookup=lookup, bootstrap_iteration=4,
+                                     rng=np.random.default_rng(0), n_assignments=n_assignments)
+    finally:
+        E._run_type_assignment = real
+
+
+def _enum_rta(size):
+    import itertools
+    for tree in _trees():
+        n_leaves = len(tree[tree['hierarchy'][-1]])
+        for n_cells in (1, 2, 3):
+            for prefs in itertools.product(range(n_leaves), repeat=n_cells):
+                if n_cells == 3 and prefs[0] > prefs[1]:
+                    continue         # (symmetry: keeps the 3-cell scope small; order of cells 1,2 still varies)
+                for n_as in (1, 3):
+                    yield dict(tree=tree, prefs=list(prefs), n_assignments=n_as)
+
+
+def _gen_rta(rng, size):
+    trees = list(_trees(3, 5))
+    tree = rng.choice(trees)
+    n_leaves = len(tree[tree['hierarchy'][-1]])
+    return dict(tree=tree, prefs=[rng.randrange(n_leaves) for _ in range(rng.randint(1, 5))],
+                n_assignments=rng.choice([1, 2, 3, 10]))
+
+
+def _expected(tree, pref, level):
+    return _leaf_ancestors(tree, sorted(tree[tree['hierarchy'][-1]])[pref])[level]
+
+
+def _has_choice(tree, pref, k):
+    """did the cell face a real choice when its level-k node was picked?"""
+    H = tree['hierarchy']
+    if k == 0:
+        return len(tree[H[0]]) > 1
+    return len(tree[H[k - 1]][_expected(tree, pref, H[k - 1])]) > 1
+
+
+def _expected_corr(tree, pref, k):
+    """avg_correlation expected at level k: own value if a choice was made there, else that of
+    the nearest level above with a choice, else (levels above the first choice) of the nearest below"""
+    H = tree['hierarchy']
+    corr = _cell_numbers(pref, len(tree[H[-1]]))[1]
+    above = [j for j in range(k, -1, -1) if _has_choice(tree, pref, j)]
+    below = [j for j in range(k + 1, len(H)) if _has_choice(tree, pref, j)]
+    if above:
+        return corr + 0.01 * above[0]
+    if below:
+        return corr + 0.01 * below[0]
+    return None
+
+
+def _prod(xs):
+    out = 1.0
+    for x in xs:
+        out *= x
+    return out
+
+
+RTA_ENV = dict(expected=_expected, has_choice=_has_choice, expected_corr=_expected_corr, prod=_prod,
+               cell_numbers=_cell_numbers, H=lambda tree: tree['hierarchy'],
+               n_leaves=lambda tree: len(tree[tree['hierarchy'][-1]]), isinstance=isinstance, dict=dict)
+
+contract(
+    M + 'run_type_assignment#bounded',
+    properties=['C01', 'C03', 'C06'], mode='bounded',
+    native=dict(call=_run_with_stub, enumerate=_enum_rta, gen=_gen_rta, env=RTA_ENV, max_enumerated=400000,
+                bound='exhaustive: every taxonomy with <= 3 levels and <= 4 leaves x <= 3 cells '
+                      '(every preferred leaf) x n_assignments in {1,3}; election stubbed per cell'),
+    params=dict(tree='Opaque', prefs='List[Int]', n_assignments='Int'),
+    returns='Opaque',
+    ensures=[
+        # C01.d: one record per cell, every level present, no exception (an exception is a failure)
+        "len(result) == len(prefs)",
+        "all(set(result[i].keys()) == set(H(tree)) and all(isinstance(result[i][lv], dict) for lv in H(tree)) "
+        "for i in range(len(prefs)))",
+        # each assignment is a node of its level, child of the assignment one level up
+        "all(result[i][H(tree)[0]]['assignment'] in tree[H(tree)[0]] for i in range(len(prefs)))",
+        "all(result[i][H(tree)[k]]['assignment'] in tree[H(tree)[k - 1]][result[i][H(tree)[k - 1]]['assignment']] "
+        "for i in range(len(prefs)) for k in range(1, len(H(tree))))",
+        # C06.c: the record written for cell i is the one computed from cell i's own data
+        "all(result[i][lv]['assignment'] == expected(tree, prefs[i], lv) for i in range(len(prefs)) for lv in H(tree))",
+        "all(result[i][H(tree)[k]]['bootstrapping_probability'] == "
+        "(cell_numbers(prefs[i], n_leaves(tree))[0] if has_choice(tree, prefs[i], k) else 1.0) "
+        "for i in range(len(prefs)) for k in range(len(H(tree))))",
+        # C03: single-child parent => probability 1, no runners-up; otherwise the flagged runners-up only
+        "all(implies(not has_choice(tree, prefs[i], k), result[i][H(tree)[k]]['runner_up_assignment'] == [] and "
+        "result[i][H(tree)[k]]['runner_up_probability'] == [] and result[i][H(tree)[k]]['runner_up_correlation'] == []) "
+        "for i in range(len(prefs)) for k in range(len(H(tree))))",
+        "all(len(result[i][lv]['runner_up_assignment']) == len(result[i][lv]['runner_up_probability']) == "
+        "len(result[i][lv]['runner_up_correlation']) <= max(0, n_assignments - 1) and "
+        "all(p > 0 for p in result[i][lv]['runner_up_probability']) and "
+        "result[i][lv]['assignment'] not in result[i][lv]['runner_up_assignment'] "
+        "for i in range(len(prefs)) for lv in H(tree))",
+        # C03: avg_correlation = that of the nearest level with a real choice (None only if the
+        # cell never faced a choice)
+        "all(result[i][H(tree)[k]]['avg_correlation'] == expected_corr(tree, prefs[i], k) or "
+        "abs(result[i][H(tree)[k]]['avg_correlation'] - expected_corr(tree, prefs[i], k)) < 1e-12 "
+        "for i in range(len(prefs)) for k in range(len(H(tree))))",
+        # C03: aggregate probability = running product from the top
+        "all(abs(result[i][H(tree)[k]]['aggregate_probability'] - "
+        "prod(result[i][H(tree)[j]]['bootstrapping_probability'] for j in range(k + 1))) < 1e-12 "
+        "for i in range(len(prefs)) for k in range(len(H(tree))))",
+    ],
+    note="bounded stand-in for the A.1 invariant of run_type_assignment",
+)
+
+
+# ---------------------------------------------------------------------------------------------
+# _run_type_assignment: marker lookup (matching.assemble_query_data) + election (choose_node)
+# ---------------------------------------------------------------------------------------------
+import contracts.c_matching  # noqa: E402,F401  (records CBGm / AQD, contract of assemble_query_data)
+
+contract(
+    M + '_run_type_assignment',
+    properties=['C02', 'C03', 'C01'],
+    params=dict(full_query_gene_data='CBGm', leaf_node_matrix='CBGm', marker_gene_cache_path='Opaque',
+                taxonomy_tree='Opaque', parent_node='Opt[Tuple[Name,Name]]', bootstrap_factor='Real',
+                bootstrap_iteration='Int', rng='Rng', gpu_index='Int', timers='Opt[Opaque]', n_assignments='Int'),
+    returns=CHOOSE_RET,
+    requires=[
+        "full_query_gene_data.normalization == 'log2CPM' and leaf_node_matrix.normalization == 'log2CPM'",
+        "full_query_gene_data.n_cells >= 1",
+        "n_markers_for(marker_gene_cache_path, parent_node) >= 1",      # C08: every consulted parent has markers
+        "0 < bootstrap_factor and bootstrap_factor <= 1", "bootstrap_iteration >= 1",
+        "bootstrap_iteration <= 18446744073709551615", "n_assignments >= 1",
+    ],
+    ensures=[
+        # one answer per cell of the matrix handed in, in its row order
+        "len(result[0]) == full_query_gene_data.n_cells and len(result[1]) == full_query_gene_data.n_cells "
+        "and len(result[2]) == full_query_gene_data.n_cells and len(result[3]) == full_query_gene_data.n_cells",
+        "all(result[1][i] >= 0 for i in range(len(result[1])))",
+        "all(len(result[3][i]) <= n_assignments - 1 for i in range(len(result[3])))",
+        "all(result[3][i][c][1] == (result[3][i][c][3] > 0) "
+        "for i in range(len(result[3])) for c in range(len(result[3][i])))",
+        "all(result[3][i][c][3] <= result[1][i] for i in range(len(result[3])) for c in range(len(result[3][i])))",
+        "all(result[3][i][c][0] != result[0][i] for i in range(len(result[3])) for c in range(len(result[3][i])))",
+        "all(result[3][i][c][0] != result[3][i][d][0] "
+        "for i in range(len(result[3])) for c in range(len(result[3][i])) for d in range(len(result[3][i])) if c < d)",
+    ],
+    inline_asserts={
+        # the election is run on the matrices assemble_query_data returned, with its labels
+        "query_data = assemble_query_data(": [
+            "query_data['query_data'].data.shape[0] == full_query_gene_data.n_cells",
+            "query_data['reference_data'].data.shape[0] == len(query_data['reference_types'])",
+        ],
+    },
+)
